@@ -343,6 +343,14 @@ def _sym_exec(ctx, fi, bindings: dict, depth=0):
                 run(st.body)
             elif isinstance(st, (ast.For, ast.While, ast.With)):
                 run(st.body)
+            elif isinstance(st, ast.Match):
+                from ..model import desugar_match
+                d_ = desugar_match(st)
+                if d_ is not None:
+                    run([d_])
+                else:
+                    for c_ in st.cases:
+                        run(c_.body)
     run(fi.node.body)
     env["__term__"] = term
     return env, rets
@@ -580,12 +588,41 @@ def r_bondtype(ctx) -> RuleResult:
             if g.cls is None and "." not in g.qualname:
                 calls[g.name] = (g.node, consts_of(g))
         bad, undecided = [], []
+        # the record may be made in a function of one line, or inside the loop over the lines of the block
+        loop = None
+        for lp in own_walk(f.node):
+            if isinstance(lp, ast.For) and isinstance(lp.target, ast.Name) and any(x is d for x in ast.walk(lp)):
+                loop = lp
+        tkey = next(v for k, v in zip(d.keys, d.values) if k is not None and try_const(ctx, f, k, default=None) == bt_k)
         for t in types:
             sample = f"{1:>3}{2:>3}{t:>3}  0  0  0  0" if ver == "V2000" else ["M", "V30", "1", str(t), "1", "2"]
             pe = PathEval(calls)
             env = consts_of(f)
             for p_ in ps:
                 env[p_] = UNKNOWN
+            if loop is not None:
+                for nm in {x.id for x in ast.walk(f.node) if isinstance(x, ast.Name) and isinstance(x.ctx, ast.Store)}:
+                    env[nm] = UNKNOWN
+                env[loop.target.id] = sample
+                falls, lefts = pe.block(loop.body, [PState(env)])
+                ends = falls + [s_ for s_, how, _v in lefts if how in ("continue", "break", "return")]
+                if not ends:
+                    if pe.gaps:
+                        undecided.append((t, pe.gaps[0]))
+                    else:
+                        bad.append((t, "rejected"))
+                    continue
+                kept = set()
+                for s_ in ends:
+                    v = pe.ev(tkey, s_)
+                    kept.add(None if isinstance(v, _Unknown) else v)
+                if kept == {t}:
+                    continue
+                if None in kept:
+                    undecided.append((t, pe.gaps[0] if pe.gaps else "the bond type kept for the sample is not determined"))
+                else:
+                    bad.append((t, f"kept as {sorted(kept)}"))
+                continue
             env[ps[0]] = sample
             falls, lefts = pe.block(f.node.body, [PState(env)])
             rets = [v for _s, how, v in lefts if how == "return"]
